@@ -658,8 +658,8 @@ func runC17(c *core.Ctx) {
 			}
 			for _, badIn := range []string{"0", "xyz", "0x0", "abc"} {
 				var g backend.HEXBytes
-				if g.UnmarshalText([]byte(badIn)) == nil {
-					c.Violate("C17|hexbytes|malformed-accepted", "%q accepted", badIn)
+				if p, msg := core.Guard(func() { _ = g.UnmarshalText([]byte(badIn)) }); p { // text no encoder writes: only totality
+					c.Violate("C17|hexbytes|malformed-panic", "%q: %s", badIn, msg)
 				}
 			}
 			c.Shape("hexbytes", ln)
